@@ -82,7 +82,13 @@ pub fn run(ctx: &Ctx) -> Report {
         plan.headers.push(("Host".into(), b"example.amazonaws.com".to_vec()));
         for (b, h) in HDRS.iter().enumerate() {
             if present & (1 << b) != 0 {
-                plan.headers.push((recase(h, (style + b as u64) % 3), format!("v{}", b).into_bytes()));
+                // a header that is present with an empty or blank value is still present
+                let value: Vec<u8> = match (i / 5 + b as u64) % 4 {
+                    0 => Vec::new(),
+                    1 => b"   ".to_vec(),
+                    _ => format!("v{}", b).into_bytes(),
+                };
+                plan.headers.push((recase(h, (style + b as u64) % 3), value));
             }
         }
         plan.signed.clear();
@@ -167,7 +173,7 @@ pub fn run(ctx: &Ctx) -> Report {
     Report {
         stats: st,
         rule: format!(
-            "64 requirement sets (always ⊆ {{x-req-a, Content-Type}}, if-in-request ⊆ {{x-opt-c, ETag}}, prefixes ⊆ {{x-p-, X-Amz}}) x {} letter-case styles x {} ways of building the requirements (slice, VecSignedHeaderRequirements::new, add_*, add_* then remove_* of decoys) x every subset of 7 optional request headers (one of them named exactly like the declared prefix x-p-) x every signed subset of the present headers and x-amz-date x {{host, :authority, neither}}; every request is correctly signed over exactly the list it declares, so only the requirement rules can refuse it. Oracle: reference verifier (Ok iff host/:authority signed, every always-header signed, every present conditional header signed, every present header matching a prefix — including x-amz-date and authorization-related ones — signed; otherwise SignatureDoesNotMatch/403 and an empty provider log). plus every sequence of up to {} add_*/remove_* operations over three names (two of them case variants of each other) on VecSignedHeaderRequirements, compared with a set model of what was declared. states = (requirement set, accepted)",
+            "64 requirement sets (always ⊆ {{x-req-a, Content-Type}}, if-in-request ⊆ {{x-opt-c, ETag}}, prefixes ⊆ {{x-p-, X-Amz}}) x {} letter-case styles x {} ways of building the requirements (slice, VecSignedHeaderRequirements::new, add_*, add_* then remove_* of decoys) x every subset of 7 optional request headers (one of them named exactly like the declared prefix x-p-; values rotate through empty, blank and non-empty) x every signed subset of the present headers and x-amz-date x {{host, :authority, neither}}; every request is correctly signed over exactly the list it declares, so only the requirement rules can refuse it. Oracle: reference verifier (Ok iff host/:authority signed, every always-header signed, every present conditional header signed, every present header matching a prefix — including x-amz-date and authorization-related ones — signed; otherwise SignatureDoesNotMatch/403 and an empty provider log). plus every sequence of up to {} add_*/remove_* operations over three names (two of them case variants of each other) on VecSignedHeaderRequirements, compared with a set model of what was declared. states = (requirement set, accepted)",
             if thorough { 3 } else { 3 }, n_build, depth
         ),
         bounds: json!({"requirement_sets": 64, "shapes": n_shapes, "cases": total}),
